@@ -1,1 +1,238 @@
-(* Uper/Writer.v -- stub, to be filled *)
+(* L2 writer: model of `impl Writer for UperWriter` in src/rw/uper.rs — Scope::write_into_field,
+   write_bit_field_entry, scope_pushed (with its debug_assert), scope_stashed, with_buffer (open
+   type wrapping), write_extensible_bit_and_length_or_err and every write_* method; the generated
+   write_seq is the field walk over [TSeq]. *)
+From A1 Require Export Uper.Ty.
+Local Open Scope N_scope.
+
+Inductive scope :=
+| OptBitField (start stop : N)
+| AllBitField (start stop : N)
+| ExtSeq (bit_pos : N) (opt : option (N * N)) (calls_until_ext_bitfield : N) (number_of_ext_fields : N)
+| ExtSeqEmpty.
+
+Definition scope_exhausted (s : scope) : bool :=
+  match s with
+  | OptBitField a b | AllBitField a b => a =? b
+  | ExtSeq _ (Some (a, b)) _ _ => a =? b
+  | ExtSeq _ None _ _ => true
+  | ExtSeqEmpty => true
+  end.
+Definition encode_as_open_type_field (s : scope) : bool :=
+  match s with AllBitField _ _ | ExtSeqEmpty => true | _ => false end.
+
+(* the bit sink: bits in reverse order (newest first) with their count, and the current scope *)
+Record wst := { w_rbits : list bool; w_n : N; w_scope : option scope }.
+Definition w_empty : wst := {| w_rbits := []; w_n := 0; w_scope := None |}.
+Definition w_bits (w : wst) : bits := frev (w_rbits w).
+
+Definition w_append (w : wst) (b : bits) : wst :=
+  {| w_rbits := rev_append b (w_rbits w); w_n := w_n w + N.of_nat (length b); w_scope := w_scope w |}.
+Definition w_set_scope (w : wst) (s : option scope) : wst :=
+  {| w_rbits := w_rbits w; w_n := w_n w; w_scope := s |}.
+
+Fixpoint set_nth {A} (l : list A) (i : nat) (x : A) : list A :=
+  match l, i with
+  | [], _ => []
+  | _ :: r, O => x :: r
+  | a :: r, S i' => a :: set_nth r i' x
+  end.
+
+(* bits.with_write_position_at(pos, |b| b.write_bit(bit)) for a position inside the written bits *)
+Definition w_patch (w : wst) (pos : N) (bit : bool) : res wst :=
+  if pos <? w_n w then
+    Ok {| w_rbits := set_nth (w_rbits w) (N.to_nat (w_n w - 1 - pos)) bit; w_n := w_n w; w_scope := w_scope w |}
+  else Panic P_OTHER.   (* outside the model: a placeholder position at or beyond the write position *)
+
+(* lift an L1 writer (appended bits) *)
+Definition w_put (w : wst) (r : res bits) : res wst := let! b := r in Ok (w_append w b).
+
+(** Scope::write_into_field *)
+Definition write_into_field (m : mode) (w : wst) (sc : scope) (is_opt is_present : bool) : res wst :=
+  match sc with
+  | OptBitField a b =>
+      if is_opt then
+        let! w := w_patch w a is_present in Ok (w_set_scope w (Some (OptBitField (a + 1) b)))
+      else Ok w
+  | AllBitField a b =>
+      let! w := w_patch w a is_present in Ok (w_set_scope w (Some (AllBitField (a + 1) b)))
+  | ExtSeq bit_pos opt calls n_ext =>
+      if calls =? 0 then
+        let! w := w_patch w bit_pos is_present in
+        if is_present then
+          let! d := usub m n_ext 1 in
+          let! w := w_put w (w_normally_small m d) in
+          let pos := w_n w in
+          let w := w_append w (repeat true (N.to_nat n_ext)) in
+          Ok (w_set_scope w (Some (AllBitField (pos + 1) (w_n w))))
+        else Ok (w_set_scope w (Some ExtSeqEmpty))
+      else
+        let calls' := calls - 1 in
+        match opt with
+        | Some (a, b) =>
+            if is_opt then
+              let! w := w_patch w a is_present in
+              Ok (w_set_scope w (Some (ExtSeq bit_pos (Some (a + 1, b)) calls' n_ext)))
+            else Ok (w_set_scope w (Some (ExtSeq bit_pos opt calls' n_ext)))
+        | None => Ok (w_set_scope w (Some (ExtSeq bit_pos opt calls' n_ext)))
+        end
+  | ExtSeqEmpty => if is_present then Err E_EXT_INCONSISTENT else Ok w
+  end.
+
+Definition write_bit_field_entry (m : mode) (w : wst) (is_opt is_present : bool) : res wst :=
+  match w_scope w with
+  | Some sc => write_into_field m w sc is_opt is_present
+  | None => if is_opt then Ok (w_append w [is_present]) else Ok w
+  end.
+
+(* scope_pushed(scope, f): on success in a debug build the pushed scope must be exhausted *)
+Definition scope_pushed (m : mode) (w : wst) (sc : scope) (f : wst -> res wst) : res wst :=
+  let original := w_scope w in
+  let! w' := f (w_set_scope w (Some sc)) in
+  if debug_asserts m && negb (match w_scope w' with Some s => scope_exhausted s | None => false end)
+  then Panic P_ASSERT
+  else Ok (w_set_scope w' original).
+
+Definition scope_stashed (w : wst) (f : wst -> res wst) : res wst :=
+  let original := w_scope w in
+  let! w' := f (w_set_scope w None) in
+  Ok (w_set_scope w' original).
+
+(* with_buffer: an open-type field is written into a fresh writer and appended as an octet string *)
+Definition with_buffer (m : mode) (w : wst) (f : wst -> res wst) : res wst :=
+  if match w_scope w with Some s => encode_as_open_type_field s | None => false end then
+    let! sub := f w_empty in
+    w_put w (w_octetstring m None None false (bytes_of_bits (w_bits sub)))
+  else f w.
+
+Definition write_ext_bit_and_length (m : mode) (w : wst) (extensible : bool) (min max : option N)
+           (upper_limit len : N) : res wst :=
+  let umin := opt_or min 0 in
+  let umax := opt_or max upper_limit in
+  let out_of_range := (len <? umin) || (umax <? len) in
+  let w := if extensible then w_append w [out_of_range] else w in
+  if out_of_range then
+    if negb extensible then Err E_SIZE_RANGE
+    else let! (b, _) := w_length_determinant m None None len in Ok (w_append w b)
+  else let! (b, _) := w_length_determinant m min max len in Ok (w_append w b).
+
+Definition U64_MAX : N := two64 - 1.
+
+Fixpoint find_invalid (c : cset) (chars : list N) : bool :=
+  match chars with
+  | [] => false
+  | ch :: r => negb (cs_valid c ch) || find_invalid c r
+  end.
+
+(* the per-character bit fields of the known-multiplier string writers (`char as u8`) *)
+Definition char_bits (c : cset) (ch : N) : bits :=
+  let b := ch mod 256 in
+  match c with
+  | Numeric => let x := (if b - 32 =? 0 then 0 else (b - 32 - 15) mod 256) in skipn 4 (byte_bits x)
+  | _ => skipn 1 (byte_bits b)
+  end.
+
+Definition wf_seq_val (vs : list (option val)) := True.
+
+Fixpoint write_ty (m : mode) (t : ty) (v : val) (w : wst) {struct t} : res wst :=
+  match t, v with
+  | TBool, VBool b =>
+      let! w := write_bit_field_entry m w false true in
+      with_buffer m w (fun w => Ok (w_append w [b]))
+  | TNull, VNull =>
+      let! w := write_bit_field_entry m w false true in
+      with_buffer m w (fun w => Ok w)
+  | TInt k lo hi ext, VInt z =>
+      let! w := write_bit_field_entry m w false true in
+      let value := to_i64 z in
+      let max_fn :=
+        if ext then ((value <? opt_or lo 0) || (opt_or hi I64_MAXz <? value))%Z
+        else negb (is_some lo) && negb (is_some hi) in
+      with_buffer m w (fun w =>
+        let w := if ext then w_append w [max_fn] else w in
+        if max_fn then w_put w (w_unconstrained m value)
+        else w_put w (w_constrained m (opt_or lo 0%Z) (opt_or hi I64_MAXz) value))
+  | TStr Utf8 lo hi ext, VStr chars =>
+      let! w := write_bit_field_entry m w false true in
+      with_buffer m w (fun w =>
+        let n := N.of_nat (length chars) in
+        if negb ext && ((n <? opt_or lo 0) || (opt_or hi U64_MAX <? n)) then Err E_SIZE_RANGE
+        else w_put w (w_octetstring m None None false (utf8_encode chars)))
+  | TStr c lo hi ext, VStr chars =>
+      let! w := write_bit_field_entry m w false true in
+      with_buffer m w (fun w =>
+        if find_invalid c chars then Err E_INVALID_STRING else
+        let! w := write_ext_bit_and_length m w ext lo hi U64_MAX (N.of_nat (length chars)) in
+        Ok (w_append w (flat_map (char_bits c) chars)))
+  | TOctets lo hi ext, VOctets bs =>
+      let! w := write_bit_field_entry m w false true in
+      with_buffer m w (fun w => w_put w (w_octetstring m lo hi ext bs))
+  | TBitStr lo hi ext, VBits bs bl =>
+      let! w := write_bit_field_entry m w false true in
+      with_buffer m w (fun w => w_put w (w_bitstring m lo hi ext bs 0 bl))
+  | TListOf e lo hi ext, VList vs =>
+      let! w := write_bit_field_entry m w false true in
+      with_buffer m w (fun w =>
+      scope_stashed w (fun w =>
+        let! w := write_ext_bit_and_length m w ext lo hi I64_MAX (N.of_nat (length vs)) in
+        scope_stashed w (fun w =>
+          (fix elems (vs : list val) (w : wst) : res wst :=
+             match vs with
+             | [] => Ok w
+             | x :: vs' => let! w := write_ty m e x w in elems vs' w
+             end) vs w)))
+  | TSeq fs std_opt field_count ext_after, VSeq vals =>
+      let! w := write_bit_field_entry m w false true in
+      with_buffer m w (fun w =>
+        let bit_pos := w_n w in
+        let w := match ext_after with Some _ => w_append w [false] | None => w end in
+        let write_pos := w_n w in
+        let w := w_append w (repeat false (N.to_nat std_opt)) in
+        let walk (w : wst) : res wst :=
+          (fix fields (fs : list (fkind * ty)) (vals : list (option val)) (w : wst) : res wst :=
+             match fs, vals with
+             | [], _ => Ok w
+             | (FReq, ft) :: fs', Some x :: vals' =>
+                 let! w := write_ty m ft x w in fields fs' vals' w
+             | (FOpt, ft) :: fs', ov :: vals' =>
+                 (* write_opt *)
+                 let! w := write_bit_field_entry m w true (is_some ov) in
+                 let! w := (match ov with
+                            | Some x => with_buffer m w (fun w => scope_stashed w (fun w => write_ty m ft x w))
+                            | None => Ok w
+                            end) in
+                 fields fs' vals' w
+             | (FDef d, ft) :: fs', Some x :: vals' =>
+                 (* write_default *)
+                 let present := negb (val_eqb d x) in
+                 let! w := write_bit_field_entry m w true present in
+                 let! w := (if present then scope_stashed w (fun w => write_ty m ft x w) else Ok w) in
+                 fields fs' vals' w
+             | _, _ => Panic P_OTHER   (* value does not match the type: outside the model *)
+             end) fs vals w in
+        match ext_after with
+        | Some ea =>
+            let! nx := usub m field_count (ea + 1) in
+            scope_pushed m w (ExtSeq bit_pos (Some (write_pos, write_pos + std_opt)) (ea + 1) nx) walk
+        | None => scope_pushed m w (OptBitField write_pos (write_pos + std_opt)) walk
+        end)
+  | TChoice alts std ext, VChoice index x =>
+      let! w := write_bit_field_entry m w false true in
+      scope_stashed w (fun w =>
+        let! w := w_put w (w_enumeration_index m std ext index) in
+        let content (w : wst) : res wst :=
+          (fix pick (alts : list ty) (i : nat) : res wst :=
+             match alts, i with
+             | a :: _, O => write_ty m a x w
+             | _ :: r, S i' => pick r i'
+             | [], _ => Panic P_OTHER
+             end) alts (N.to_nat index) in
+        if std <=? index then
+          let! sub := content w_empty in
+          w_put w (w_octetstring m None None false (bytes_of_bits (w_bits sub)))
+        else content w)
+  | TEnum variant_count std ext, VEnum index =>
+      let! w := write_bit_field_entry m w false true in
+      with_buffer m w (fun w => w_put w (w_enumeration_index m std ext index))
+  | _, _ => Panic P_OTHER
+  end.
